@@ -670,7 +670,7 @@ static void print_touchstone_header(vnadata_internal_t *vdip, FILE *fp,
 
 	(void)fprintf(fp, "[Number of Ports] %d\n", ports);
 	if (ports == 2) {
-	    (void)fprintf(fp, "[Two-Port Order] 12_21\n");
+	    (void)fprintf(fp, "[Two-Port Data Order] 12_21\n");
 	}
 	(void)fprintf(fp, "[Number of Frequencies] %d\n",
 		vnadata_get_frequencies(vdp));
